@@ -79,6 +79,11 @@ def run(pp, inst, forms, R, seed):
                           ("unknown_prefix", v + " x" + u), ("pico_prefix", v + " p" + u), ("empty", ""),
                           ("no_unit", v), ("number_only_space", v + " "), ("two_numbers", v + " " + v + " " + u)):
             must_reject(U.parse_quantity, bad, kind, "quantity")
+        # the base unit in the wrong case ('ml', 'uMOL', 'kG', 'u'): no SI unit, and never another one
+        base = next(b for b in ("mol", "L", "g", "U") if u.endswith(b))
+        must_reject(U.parse_quantity, v + " " + u[:len(u) - len(base)] + base.swapcase(), "base_unit_case", "quantity")
+    for text in ("5 ml", "250 ul", "1 l", "2 dl", "3 Mol", "4 MOL", "1 G", "7 u", "2 ku"):
+        must_reject(U.parse_quantity, text, "base_unit_case", "quantity")
     for text in valid_c[::101][:40]:
         if "/" not in text or text.endswith(("%w/w", "%v/v", "%w/v")):
             v, name = text.split(" ", 1)
@@ -94,6 +99,13 @@ def run(pp, inst, forms, R, seed):
                           ("unknown_prefix", v + " x" + nunit + "/" + den), ("pico_prefix", v + " p" + nunit + "/" + den),
                           ("no_slash", num + " " + den), ("non_numeric_denominator_value", num + "/abc " + den.split(" ")[-1])):
             must_reject(U.parse_concentration, bad, kind, "concentration")
+        dv = den.split(" ")
+        for side, unit in (("numerator", nunit), ("denominator", dv[-1])):
+            base = next((b for b in ("mol", "L", "g", "U") if unit.endswith(b)), None)
+            if base:
+                wrong = unit[:len(unit) - len(base)] + base.swapcase()
+                bad = (v + " " + wrong + "/" + den) if side == "numerator" else (num + "/" + " ".join(dv[:-1] + [wrong]))
+                must_reject(U.parse_concentration, bad, "base_unit_case_" + side, "concentration")
     # ---- interchangeability at use sites -------------------------------------------------------------------
     W, N, D = inst.subs["W"], inst.subs["N"], inst.subs["D"]
     C = pp.Container
